@@ -84,6 +84,8 @@ def append_step(pattern, folders, opts, new):
             for i, k in enumerate(new):
                 if k == "s":
                     e.method(z, "_writef", S.StubSource(nsz[i], "n%d" % i), new_names[i])
+                elif k == "l":
+                    e.method(z, "write", S.StubPath("src/" + new_names[i], "link", 0, "n%d" % i), new_names[i])
                 else:
                     e.method(z, "write", S.StubPath("src/" + new_names[i], "dir", 0, "n%d" % i), new_names[i])
             e.method(z, "close")
@@ -134,7 +136,7 @@ def append_step(pattern, folders, opts, new):
         # new members follow in order, in the new folder
         comp = o["comps"][-1] if o["comps"] else None
         nf_old = len(folders)
-        data_new = [i for i, k in enumerate(new) if k == "s"]
+        data_new = [i for i, k in enumerate(new) if k in "sl"]
         for j, k in enumerate(new):
             f = files[n0 + j]
             c.append(f.get("name_units") == [ord(ch) for ch in new_names[j]])
@@ -229,6 +231,11 @@ def replay(pattern, folders, opts, new, witness):
                         data = bytes((200 + i + j) & 0xFF for j in range(size))
                         z.writestr(data, name)
                         expect.append((name, data))
+                    elif k == "l":
+                        open(os.path.join(d, "tgt%d" % i), "wb").write(b"t")
+                        os.symlink("tgt%d" % i, os.path.join(d, "lnk%d" % i))
+                        z.write(os.path.join(d, "lnk%d" % i), name)
+                        expect.append((name, b"tgt%d" % i))
                     else:
                         sub = os.path.join(d, "dir%d" % i)
                         os.mkdir(sub)
@@ -266,7 +273,7 @@ def units(tier):
     if tier == "thorough":
         bases += [("fff", [2, 1], {"times": "partial"}), ("fef", [1, 1], {"emptyfile_vector": True}), ("fdff", [2, 1], {}),
                   ("fff", [1, 2], {"packcrc": True}), ("ff", [2], {"omit_numunpack": False})]
-    news = ["s", "ss", "sd", "", "d"] if tier == "quick" else ["s", "ss", "sd", "ds", "sss", "", "d"]
+    news = ["s", "ss", "sd", "", "d", "l"] if tier == "quick" else ["s", "ss", "sd", "ds", "sss", "", "d", "l", "sl", "ls"]
     for (p, f, o) in bases:
         for nw in news:
             us.append(Unit("append[%s + %s]" % (RC.shape_name(p, f, o), nw or "nothing"), M, "append_step",
